@@ -18,13 +18,13 @@ func init() {
 	register(&propDef{
 		ID:          "C05",
 		Run:         ruleC05,
-		Explanation: "Decides validity of the placeholder constants and the class->placeholder selection (structural necessary conditions of C05): (R1) each placeholder constant is a member of its class, evaluated by the checker on the source constants (RFC 3339 date, 24 hex digits, valid standard base64, e-mail literal matching the pattern extracted from the classifier and within its length bounds, number 0, boolean false); (R2) in the scalar step the arm taken under parent key $date yields the date placeholder, $oid the ObjectId placeholder, base64 under grand-parent $binary the base64 placeholder, the e-mail arm is guarded by the classifier, every other string yields the configured replacement global, numbers yield 0 and booleans false; parent/grand-parent key are the last / second-to-last path elements; (R3) the replacement text is stored only by init and its setter, fed by --replacement; (R4) $binary.subType is exempt. NOT decided: that an arbitrary replacement string survives JSON serialisation (library).",
+		Explanation: "Decides validity of the placeholder constants and the class->placeholder selection (structural necessary conditions of C05): (R1) each placeholder constant is a member of its class, evaluated by the checker on the source constants (RFC 3339 date, 24 hex digits, valid standard base64, e-mail literal matching the pattern extracted from the classifier and within its length bounds, number 0, boolean false); (R2) in the scalar step the arm taken under parent key $date yields the date placeholder, $oid the ObjectId placeholder, base64 under grand-parent $binary the base64 placeholder, the e-mail arm is guarded by the classifier, every other string yields the configured replacement global, numbers yield 0 and booleans false; parent/grand-parent key are the last / second-to-last path elements; (R3) the replacement text is stored only by init and its setter, fed by --replacement; (R4) $binary.subType is exempt. No zone function writes into the backing array of a key-path parameter (the last two keys the scalar step reads are the ancestors'). NOT decided: that an arbitrary replacement string survives JSON serialisation (library).",
 		RuleText:    "obligations = placeholder constants (checker-side evaluation of source constants), calls of the string choke point in the scalar step (guard atoms -> expected placeholder operand), numeric/boolean constant returns, stores to the replacement global",
 	})
 	register(&propDef{
 		ID:          "C19",
 		Run:         ruleC19,
-		Explanation: "Decides that each placeholder is classified as its own class by the same code and that the redactor emits no other values on redacting paths (structural necessary conditions of C19): (R1) feeding each arm's placeholder constant back through the class tests, evaluated on the source constants, yields the same constant (the e-mail literal is accepted by the extracted classifier, the default replacement is not and does not start with '$', the wrapper arms are selected by key and string type only, number/boolean placeholders are JSON numbers/booleans, the remote placeholder is a constant string); (R2) every non-raw return of the scalar step is a constant, the replacement global or a choke-point result whose placeholder operand is one of those; (R3) parse followed by serialise keeps kinds, order and number text: number tokens stay json.Number (UseNumber before the first token), objects are rebuilt in token order and serialised Front-to-Next, containers never reach encoding/json. NOT decided: byte-level canonicity of encoding/json on its own output; a user-supplied replacement that is e-mail shaped (excluded by the statement).",
+		Explanation: "Decides that each placeholder is classified as its own class by the same code and that the redactor emits no other values on redacting paths (structural necessary conditions of C19): (R1) feeding each arm's placeholder constant back through the class tests, evaluated on the source constants, yields the same constant (the e-mail literal is accepted by the extracted classifier, the default replacement is not and does not start with '$', the wrapper arms are selected by key and string type only, number/boolean placeholders are JSON numbers/booleans, the remote placeholder is a constant string); (R2) every non-raw return of the scalar step is a constant, the replacement global or a choke-point result whose placeholder operand is one of those; (R3) parse followed by serialise keeps kinds, order and number text: number tokens stay json.Number (UseNumber before the first token), objects are rebuilt in token order and serialised Front-to-Next, containers never reach encoding/json. (R4) reader/writer agreement on the encoding selected by the file name: a file created from the --outputFile string is gzip-encoded when its name selects gzip decoding on input. NOT decided: byte-level canonicity of encoding/json on its own output; a user-supplied replacement that is e-mail shaped (excluded by the statement).",
 		RuleText:    "obligations = placeholder constants re-classified by the extracted classifier, non-raw returns of the scalar step, parser/serialiser agreement rules shared with C03/C04",
 	})
 }
@@ -345,6 +345,9 @@ func ruleC05(c *Ctx, r *Report) {
 		r.Check(found, "C05-R4", sf.Name()+":binary-subtype-kept-in-every-stage", c.Pos(sf.Pos()),
 			"the scalar step returns a $binary.subType value unchanged on key context alone, independently of the stage kind",
 			"the BSON binary subtype is kept only where the core operator table is consulted: "+why+" - inside $search / $vectorSearch stages it is replaced by the placeholder text and extended-JSON-aware tools reject the line")
+		// the class of a leaf ($date / $oid / $binary member) is read off the last keys of the
+		// path: that path must reach the scalar step as the ancestors built it
+		pathSliceNotWrittenRule(c, r, p, "C05-R4", "the scalar step reads the wrapper kind off the last two keys of a path whose tail was shifted: the class placeholder and the $binary.subType exemption are skipped")
 	}
 }
 
@@ -409,6 +412,65 @@ func ruleC19(c *Ctx, r *Report) {
 	c03Serialiser(c, r, p, "C19-R3")
 	numbersKeptRule(c, r, "C19-R3")
 	insertionOrderRule(c, r, "C19-R3")
+
+	// ---- R4 an output file can be read back: the reader selects its decoding by the file
+	// name, so the writer of --outputFile must select its encoding by the same test
+	outputReadableAgainRule(c, r, p, "C19-R4")
+}
+
+// outputReadableAgainRule: sibling agreement between the input opener and the creation of
+// --outputFile. If gzip.NewReader is reached under `extension == ".gz"`, a file created
+// from the option string itself (os.Create(<option global>)) must be written through
+// gzip.NewWriter under the same kind of test; otherwise an output named *.gz is plain text
+// that the tool itself refuses to read.
+func outputReadableAgainRule(c *Ctx, r *Report, p *Prov, rule string) {
+	r.Floor(rule, 1, "one os.Create(--outputFile) site")
+	byExt := ""
+	for _, f := range c.SortedFuncs() {
+		for _, call := range callsIn(f, func(k string, _ *ssa.Call) bool { return k == "compress/gzip.NewReader" }) {
+			for _, a := range p.atomsAt(call.Block()) {
+				if a.Kind == "strconst" && a.Pol && strings.HasPrefix(a.Name, ".") {
+					byExt = a.Name
+				}
+			}
+		}
+	}
+	r.Analysed["input_decoding_selected_by_extension"] = byExt
+	n := 0
+	for _, f := range c.SortedFuncs() {
+		for _, call := range callsIn(f, func(k string, _ *ssa.Call) bool { return k == "os.Create" }) {
+			// the option string itself (a flag variable: package global, or a local of main
+			// captured by the command's closure) - not a name derived from it
+			ld, ok := call.Call.Args[0].(*ssa.UnOp)
+			if !ok {
+				continue
+			}
+			switch ld.X.(type) {
+			case *ssa.Global, *ssa.FreeVar, *ssa.Alloc:
+			default:
+				continue
+			}
+			n++
+			construct := fmt.Sprintf("%s:output-encoding-follows-extension(os.Create(<option string>))", f.Name())
+			if n > 1 {
+				construct += fmt.Sprintf("#%d", n)
+			}
+			if byExt == "" {
+				r.Trivial(rule, construct, c.InstrPos(call), "the reader does not select a decoding by file name")
+				continue
+			}
+			enc := false
+			for h := range c.pkgReach(f) {
+				if hasCallTo(h, "compress/gzip.NewWriter", "compress/gzip.NewWriterLevel") {
+					enc = true
+				}
+			}
+			r.Check(enc, rule, construct, c.InstrPos(call),
+				"the output is gzip-encoded when its name selects gzip decoding",
+				fmt.Sprintf("input files named *%s are read through gzip.NewReader, but a file created from the option string is always written as plain text: `redact in.log.gz -o out.log.gz` (the README's example) produces an out.log.gz the tool itself rejects with 'gzip: invalid header', so its own output cannot be fed back", byExt))
+		}
+	}
+	r.Analysed["output_file_creation_sites"] = n
 }
 
 // constantPlaceholderRule (C02-R3 / C19-R2): every non-raw scalar return of the scalar
